@@ -307,8 +307,10 @@ class Ctx:
             cov.update(extra_cov)
         ev = dict(property_id=prop, tier=self.tier, seed=self.seed, level=level, coverage=cov,
                   assumptions=assumptions, wall_s=round(time.time() - self.t0, 1), violations=len(newsigs))
-        os.makedirs(os.path.join(ROOT, "evidence"), exist_ok=True)
-        json.dump(ev, open(os.path.join(ROOT, "evidence", prop + ".json"), "w"), indent=1)
+        # checks of behaviour beyond the listed properties (ids X..) keep their evidence apart
+        edir = os.path.join(ROOT, "evidence", "extra") if prop.startswith("X") else os.path.join(ROOT, "evidence")
+        os.makedirs(edir, exist_ok=True)
+        json.dump(ev, open(os.path.join(edir, prop + ".json"), "w"), indent=1)
         log(f"[{prop}] {self.tier}: {len(newsigs)} new violation signature(s), {len(seen)} known finding(s), {ev['wall_s']}s")
         return rc
 
